@@ -312,6 +312,7 @@ def extract_fn(repo, blk, meta, mode):
     item = X.drop_vis(item, log)
     item = X.erase_async(item, log, awaitcall=blk.awaitcall)
     item = X.closure_underscore(item, log)
+    item = X.desugar_vec_extend(item, log)
     item = X.desugar_iter_mut(item, log)
     item = X.desugar_range_inclusive(item, log)
     if blk.orsplit:
